@@ -509,10 +509,26 @@ def check_const(chk, cases, results):
 def ckpt_name(prefix, k, dt, start=0):
     """file name of the checkpoint of step k written by a run that started at step `start`: the driver's t
     is an int at start-up (0, or an integral time read from a checkpoint name) and start*dt + (k-start)*dt after"""
-    t = k * dt
+    t = t_of(k, dt)
     if k == start and float(t) == int(t):
         t = int(t)
     return '{0}_{1:06}.h5'.format(prefix, t)
+
+
+def t_of(k, dt):
+    """the driver's time after k steps: the int 0, then t += dt k times (binary64 accumulation; a restart reads
+    the accumulated value back exactly from the checkpoint name, so restarts do not change the sequence)"""
+    if isinstance(dt, int):
+        return k * dt
+    t = 0
+    for _ in range(k):
+        t += dt
+    return t
+
+
+def short_step(k, dt):
+    """does the floor t // dt of the pinned tree miss step k ?"""
+    return int(t_of(k, dt) // dt) != k
 
 
 def steps_of(files, dt):
@@ -524,7 +540,7 @@ def step_of_name(name, dt):
     """step index of a checkpoint file name (None if its time is not a multiple of dt)"""
     t = float(os.path.basename(name).split('_', 1)[1][:-3])
     k = t / dt
-    return int(round(k)) if abs(k - round(k)) < 1e-9 else None
+    return int(round(k)) if abs(k - round(k)) < 1e-6 else None
 
 
 def _snapshot(folder, dt):
@@ -542,7 +558,7 @@ def _row_key(row, dt):
     if all(float(x) == 0.0 for x in cols[1:]):
         return '-'
     k = t / dt
-    return str(int(round(k))) if abs(k - round(k)) < 1e-9 else 'bad:' + cols[0]
+    return str(int(round(k))) if abs(k - round(k)) < 1e-4 else 'bad:' + cols[0]
 
 
 def _check_folder(folder, npts, dt):
@@ -607,10 +623,12 @@ def driver_case(c):
         gfiles = [f for f in out['segs'][-1]['files'] if f.startswith('grid_')]
         kfin = max((step_of_name(f, c['dt']) or 0) for f in gfiles)
         out['k_final'] = kfin
-        tfin = kfin * c['dt']
-        if c.get('unsplit_ranks') and float(tfin) == int(tfin):
-            tfin = int(tfin)
-            r = D.run_driver(c['unsplit_ranks'], du, tfin, c['S'], const_file='c.json', seed=c['seed'] + 77)
+        if c.get('unsplit_ranks'):
+            # the uninterrupted run to the same step: same tEnd arithmetic, stopped by the wall clock if needed
+            tEnd_u = max(sg[1] for sg in c['segs']) if kfin > 0 else 0
+            stop_u = kfin if 1 <= kfin < int(tEnd_u // c['dt']) else None
+            r = D.run_driver(c['unsplit_ranks'], du, tEnd_u, c['S'], const_file='c.json', stop_after=stop_u,
+                             seed=c['seed'] + 77)
             files, rows = _snapshot(os.path.join(du, 'simulation_0'), c['dt'])
             out['unsplit'] = {'outcome': r['outcome'], 'detail': r['detail'][:300], 'files': files, 'rows': rows}
             if r['outcome'] == 'ok':
@@ -639,8 +657,11 @@ def gen_driver_cases(chk, rng):
         S = rng.choice([1, 1, 2, 3, 3, 4, 5, 7])
         dt = rng.choice([1, 2, 2, 3])
         fdt = i % 7 == 3
+        ndy = i % 7 == 5                       # non-dyadic float dt: accumulated times, t // dt can be one short
         if fdt:
             dt = rng.choice([0.5, 2.0])
+        if ndy:
+            dt = rng.choice([0.1, 0.1, 0.3, 0.7])
         keep_aligned = fdt and rng.random() < 0.6
         npts = rng.choice([[4, 4, 4, 4], [5, 4, 6, 4], [6, 6, 4, 7]])
         nseg = rng.choice([1, 2, 2, 2, 3])
@@ -650,6 +671,10 @@ def gen_driver_cases(chk, rng):
             add = rng.randint(0, 2 * S + 2) if s else rng.randint(0, 3 * S + 1)
             if (i % 5 == 0 and s == 0 and S > 1) or keep_aligned:
                 add = S * rng.randint(0, 2)            # aligned stop
+            if ndy and s + 1 < nseg and rng.random() < 0.7:
+                shorts = [k for k in range(cur + 1, cur + 3 * S + 8) if short_step(k, dt)]
+                if shorts:
+                    add = rng.choice(shorts[:3]) - cur  # stop where t // dt is one short
             target = cur + add
             stop = None
             tEnd = int(target * dt) + (rng.randint(0, dt - 1) if isinstance(dt, int) else 0)
@@ -697,6 +722,24 @@ def check_driver(chk, cases, results):
             ends[ci] = ti
             model[ci].append({'ti': ti, 'fld': fld, 'files': [int(x.split(':')[0]) for x in files.split()],
                               'lines': lines.split()})
+    # start index of every restart with a float dt: the exact nearest-step formula of Driver.v on the exact
+    # (binary64) values of the accumulated checkpoint time and of dt must give the step the model resumes at
+    from fractions import Fraction
+    nreq, nwho = [], []
+    for ci, c in enumerate(cases):
+        if isinstance(c['dt'], float):
+            for N in [m['ti'] for m in model[ci]][:-1]:
+                ft, fd = Fraction(t_of(N, c['dt'])), Fraction(c['dt'])
+                den = max(ft.denominator, fd.denominator)
+                nreq.append('cknear %x %x' % (int(fd * den), int(ft * den)))
+                nwho.append((ci, N, short_step(N, c['dt'])))
+    for (ci, N, short), a in zip(nwho, core.model_parallel(nreq) if nreq else []):
+        near, flo = [int(x, 16) for x in a.split()]
+        chk.cov['certificates_checked'] += 1
+        if near != N or (flo != N) != short:
+            chk.violation('fullSimulation:nearest-step-hypothesis',
+                          'step %d, dt %r: exact nearest step %d, exact floor %d (harness float floor short: %r)'
+                          % (N, cases[ci]['dt'], near, flo, short), {'kind': 'driver', 'case': cases[ci]}, no_input=True)
     for ci, (c, r) in enumerate(zip(cases, results)):
         S, dt = c['S'], c['dt']
         fdt = not isinstance(dt, int)
@@ -707,7 +750,9 @@ def check_driver(chk, cases, results):
         if any(s[2] is not None for s in c['segs']):
             st += '-wallclock'
         if fdt:
-            st += '-floatdt'
+            st += '-floatdt' if dt in (0.5, 2.0) else '-nondyadicdt'
+            if any(short_step(N, dt) for N in stops[:-1]):
+                st += '-shortfloor'
         chk.count(('driver', json.dumps(c, sort_keys=True)), nontrivial=(stops[-1] > 0), stratum=st,
                   sample={'saveStep': S, 'dt': dt, 'npts': c['npts'], 'segments(nranks,tEnd,stop_after)': c['segs'],
                           'model_stop_points': stops})
@@ -917,14 +962,15 @@ def run():
         'Python str.format "{:06}" and string comparison are modelled by CkNames.v (ck_fmt06, ck_lex_lt) and compared with '
         'Python on every multi-checkpoint case',
         'constants printer/parser: tested (part b), not modelled in Coq',
-        'Driver.v counts time in steps; histories with a float dt (0.5, 2.0) are compared with the same model through '
-        't = k*dt (exact in binary64 for these values)']
+        'Driver.v counts time in steps; histories with a float dt are compared with the same model through the '
+        'accumulated binary64 time of step k; restart_time_index_nearest is instantiated on the exact values of every '
+        'float restart time (cknear), the float evaluation of t/dt + 0.5 itself is not modelled']
     return chk.finish(
         proof,
         rule='(a) seeded checkpoint cases: npts in [3,8]^4, save grid x load grid over all factorisations of 1..8 ranks, 3 layouts, '
              'loadFromFile / setupFromFile, 1-4 checkpoints with times of 1-8 digits; non-trivial = more than one rank on either side. '
              '(b) constants files: literal / symbolic / modified objects, shuffled keys. (c) driver histories with stand-in physics: '
-             'saveStep 1..7, dt 1..3 (and float 0.5 / 2.0 in one history of seven), 1-3 segments, stop by tEnd or by the wall-clock oracle, 1-8 ranks per segment; non-trivial = at '
+             'saveStep 1..7, dt 1..3 (float 0.5 / 2.0 in one history of seven, non-dyadic 0.1 / 0.3 / 0.7 with stop points where t // dt is one short in another), 1-3 segments, stop by tEnd or by the wall-clock oracle, 1-8 ranks per segment; non-trivial = at '
              'least one step. distinct = distinct case description',
         extra={'coq_vm_compute_crosschecked': ncoq, 'real_physics_runs': nreal,
                'parts': {'checkpoint_cases': len(acases), 'constants_cases': len(bcases), 'driver_histories': len(dcases)}},
